@@ -559,12 +559,12 @@ static std::vector<Case> directed()
   return v;
 }
 
-static Case random_case(Rng& rng, int proto, unsigned idx)
+static Case random_case(Rng& rng, int proto, unsigned idx, std::string const& seed)
 {
   Case c;
   c.proto = proto;
   c.n = 1 + static_cast<int>(rng.below(proto == 1 ? 3 : 2));
-  c.id = std::string{"gen_p"} + std::to_string(proto) + "_" + std::to_string(idx);
+  c.id = std::string{"gen_p"} + std::to_string(proto) + "_s" + seed + "_" + std::to_string(idx);
   if (proto == 2)
   {
     for (int j = 0; j < c.n; ++j) { c.k.push_back(1 + static_cast<int>(rng.below(4))); }
@@ -638,8 +638,8 @@ int main(int argc, char** argv)
     {
       if ((c.proto == 1 && n1 > 0) || (c.proto == 2 && n2 > 0)) { run_case(c); }
     }
-    for (unsigned i = 0; i < n1; ++i) { run_case(random_case(rng, 1, i)); }
-    for (unsigned i = 0; i < n2; ++i) { run_case(random_case(rng, 2, i)); }
+    for (unsigned i = 0; i < n1; ++i) { run_case(random_case(rng, 1, i, argv[2])); }
+    for (unsigned i = 0; i < n2; ++i) { run_case(random_case(rng, 2, i, argv[2])); }
   }
   else
   {
